@@ -101,7 +101,17 @@ def shapes():
     def run(self):
       return self.a
 
-  return {'fn': fn, 'builtin': max, 'init': WithInit, 'new': WithNew, 'both': WithBoth, 'neither': Neither,
+  import functools
+
+  def _inner(a, b=2):
+    """doc fn"""
+    return ('fn', a, b)
+
+  @functools.wraps(_inner)
+  def wrapped(*args, **kw):   # an ordinary decorator between gin and the function (carries __wrapped__)
+    return _inner(*args, **kw)
+
+  return {'fn': fn, 'wrapped_fn': wrapped, 'builtin': max, 'init': WithInit, 'new': WithNew, 'both': WithBoth, 'neither': Neither,
           'meta': WithMeta, 'slots': Slotted, 'namedtuple': NT, 'abc': Concrete}
 
 
@@ -135,7 +145,7 @@ def pickle_classes():
 
 def shape_cases():
   out = []
-  for shape in list(shapes()) + ['pickle_init', 'pickle_new', 'pickle_nt', 'with_method']:
+  for shape in list(shapes()) + ['pickle_init', 'pickle_new', 'pickle_nt', 'with_method', 'equal_objects']:
     for api in ('configurable', 'register', 'external'):
       for scoped in (False, True):
         out.append({'dom': 'gin', 'kind': 'shape', 'shape': shape, 'api': api, 'scoped': scoped, 'ops': []})
@@ -191,6 +201,8 @@ def run_shape(case):
   shape, api, scoped = case['shape'], case['api'], case['scoped']
   table = shapes()
   facts = {}
+  if shape == 'equal_objects':
+    return equal_objects(gin, api)
   if shape.startswith('pickle'):
     mod = pickle_classes()
     orig = {'pickle_init': mod.PInit, 'pickle_new': mod.PNew, 'pickle_nt': mod.PNT}[shape]
@@ -233,14 +245,15 @@ def run_shape(case):
   if api in ('register', 'external') or shape == 'builtin':
     try:
       d = orig(*args)
-      facts['direct_untouched'] = (getattr(d, 'b', None) == 2) if is_class and param else (d == ('fn', 1, 2) if shape == 'fn' else True)
+      facts['direct_untouched'] = ((getattr(d, 'b', None) == 2) if is_class and param
+                                   else (d == ('fn', 1, 2) if shape in ('fn', 'wrapped_fn') else True))
     except Exception as e:  # pylint: disable=broad-except
       facts['direct_untouched'] = f'raised {type(e).__name__}'
   try:
     c = cfgd(*args)
   except Exception as e:  # pylint: disable=broad-except
     return dict(facts, error=f'registry call: {type(e).__name__}: {e}'[:200])
-  if shape == 'fn':
+  if shape in ('fn', 'wrapped_fn'):
     facts['injected'] = c == ('fn', 1, want_b)
   elif param:
     facts['injected'] = getattr(c, 'b', None) == want_b
@@ -267,6 +280,38 @@ def run_shape(case):
     if api == 'configurable' and shape == 'fn':
       facts['name_doc_sig'] = (returned.__name__ == orig.__name__ and returned.__doc__ == orig.__doc__ and
                                str(inspect.signature(returned)) == str(inspect.signature(orig)))
+  return facts
+
+
+def equal_objects(gin, api):
+  """Two distinct callables that compare equal: the second is still "a different object under an existing
+  full name" and must be rejected, leaving the first registered."""
+  import dataclasses
+
+  @dataclasses.dataclass(frozen=True)
+  class Scale:
+    factor: int
+
+    def __call__(self, x=0):
+      return self.factor * x
+  a, b = Scale(3), Scale(3)
+  assert a == b and a is not b
+  reg = {'configurable': lambda o: gin.external_configurable(o, name='scale', module='c13'),
+         'register': lambda o: gin.register('scale', module='c13')(o),
+         'external': lambda o: gin.external_configurable(o, name='scale', module='c13')}[api]
+  facts = {}
+  try:
+    reg(a)
+  except Exception as e:  # pylint: disable=broad-except
+    return {'error': f'first registration: {type(e).__name__}: {e}'[:200]}
+  try:
+    reg(b)
+    facts['equal_but_distinct_rejected'] = 'accepted'
+  except ValueError:
+    facts['equal_but_distinct_rejected'] = True
+  except Exception as e:  # pylint: disable=broad-except
+    facts['equal_but_distinct_rejected'] = f'raised {type(e).__name__}'
+  facts['first_still_registered'] = gin.config._REGISTRY['c13.scale'].wrapped is a  # pylint: disable=protected-access
   return facts
 
 
@@ -308,7 +353,8 @@ def oracle(case, impl):
   if 'error' in f:
     return f'{tag}: {f["error"]}'
   for k in ('register_returns_original', 'direct_untouched', 'injected', 'isinstance', 'issubclass', 'name_doc_module',
-            'class_dict_unchanged', 'pickles', 'meta_ran', 'name_doc_sig'):
+            'class_dict_unchanged', 'pickles', 'meta_ran', 'name_doc_sig', 'equal_but_distinct_rejected',
+            'first_still_registered'):
     if k in f and f[k] is not True and f[k] is not None:
       return f'{tag}: {k} = {f[k]}'
   if 'exact_type' in f and f['exact_type_expected'] and not f['exact_type']:
